@@ -327,6 +327,20 @@ def sweep(ctx):
                 if 'fail' in r:
                     ctx.fail(c01_targets.prim_signature(r), f"{r['cls']}.{r['field']} = {r['value']} on {r['src']!r} -> {r.get('after')!r}: {r['fail'][:200]}", r)
     ctx.notes['primitive_field_sets'] = pn
+    # statements moved between blocks of different depth (re-indentation of multi-line literals, continuation lines,
+    # nested blocks), elif conversion
+    mn = 0
+    for lst in pmap(c01_targets.run_move_case, c01_targets.move_cases()):
+        for r in lst:
+            if 'raised' in r:
+                ctx.tally('move_raised', f"{r['op']}:{r['raised']}")
+            else:
+                mn += 1
+                ctx.count(('m', r['case'][1], r['case'][2], r['op']), True)
+                ctx.tally('move_op', r['op'])
+                if 'fail' in r:
+                    ctx.fail(c01_targets.move_signature(r), f"{r['op']} of {c01_targets.MOVE_STMTS[r['case'][1]]!r} in {r['src']!r} -> {r.get('after')!r}: {r['fail'][:200]}", r)
+    ctx.notes['moved_statements'] = mn
     # witnesses of REPAIRED findings are regression inputs: a 'fixed' entry suppresses nothing, so a witness that fails again
     # (repair reverted or not yet applied) is reported under its own signature
     import framework
@@ -387,7 +401,7 @@ def check_known(ctx, entry):
     w = entry['witness']
     if 'case' in w:
         import c01_targets
-        d = c01_targets.replay_prim(w) if w['case'][0] == 'p' else c01_targets.replay(w)
+        d = (c01_targets.replay_prim(w) if w['case'][0] == 'p' else c01_targets.replay_move(w) if w['case'][0] == 'm' else c01_targets.replay(w))
         if d:
             ctx.fail(entry['id'], entry['what'], w)
         return
@@ -420,7 +434,7 @@ def replay(ctx, data):
         return
     if 'case' in w:                 # a witness of the targeted product sweeps
         import c01_targets
-        d = c01_targets.replay_prim(w) if w['case'][0] == 'p' else c01_targets.replay(w)
+        d = (c01_targets.replay_prim(w) if w['case'][0] == 'p' else c01_targets.replay_move(w) if w['case'][0] == 'm' else c01_targets.replay(w))
         if d:
             ctx.fail('replay', d, w)
         return
